@@ -80,8 +80,9 @@ ExportBegin(m, who) ==
                       \cup (IF ExportTimeout /\ ~HasDeadline(who) THEN {"export-without-deadline"} ELSE {})
                       \cup (IF m.expShut THEN {"export-after-shutdown"}
                             ELSE IF ~(m.shutRet \/ m.sdRetErr) THEN {}
-                            ELSE IF DrainOutlives THEN {"D5-drain-outlives-expired-shutdown"}
-                            ELSE {"export-after-shutdown"})]
+                            ELSE IF ~DrainOutlives THEN {"export-after-shutdown"}
+                            ELSE IF m.shutRet THEN {"D7-shutdown-nil-while-expired-drain-runs"}
+                            ELSE {"D5-export-after-expired-shutdown"})]
 (* the answers an export by `who` may get now: "timeout" = the exporter waits for ctx.Done() *)
 Answers(who) == {o \in Outcomes : o = "timeout" => (ExportTimeout \/ who \in expired)}
 AfterExport(o) == IF o = "ok" \/ ResetOnFailure THEN <<>> ELSE batch
@@ -228,7 +229,7 @@ SRet(s) == /\ pc[s] = "ret" /\ Go(s, "done")
                      ELSE [mon EXCEPT !.shutRet = TRUE,
                                  !.bad = @ \cup (IF Missing(mon.snapS[s]) = {} THEN {}
                                                  ELSE IF DrainOutlives
-                                                      THEN {"D5-drain-outlives-expired-shutdown"}
+                                                      THEN {"D7-shutdown-nil-while-expired-drain-runs"}
                                                  ELSE IF Missing(mon.snapS[s]) \subseteq mon.raced
                                                       THEN {"D4-enqueue-after-drain"} ELSE {"shutdown-missed"})]
            /\ UNCHANGED proto
@@ -269,17 +270,19 @@ BatchBound == Len(batch) <= MaxBatch
 (*      drain finished, or (blocking mode, current shape) abandoned because stopCh is closed: never        *)
 (*      exported, not counted as dropped; a later Shutdown call still returns nil.                          *)
 (*  D5  Shutdown whose ctx expires returns ctx.Err() while the drain it started keeps running: spans are    *)
-(*      exported after that Shutdown returned, and a later Shutdown (sync.Once already done) returns nil   *)
-(*      at once, before the drain has handed the spans over.                                                *)
+(*      exported after that Shutdown has returned (with an error).                                          *)
+(*  D7  ... and a later Shutdown (sync.Once already done) returns nil at once, before that drain has       *)
+(*      handed the spans over; spans are exported after it returned nil.                                    *)
 (*  D6  ForceFlush whose ctx expires before the marker is enqueued still exports the current batch; if      *)
 (*      that export finishes first it returns nil without having waited for the spans queued before it.    *)
 (* D2/D3 (pre-ada0bc0: blocking sends that never return after the drain) are liveness defects: see Stuck.  *)
-KnownDeviations == {"D1-flush-during-shutdown", "D4-enqueue-after-drain", "D5-drain-outlives-expired-shutdown",
-                    "D6-flush-nil-without-marker"}
+KnownDeviations == {"D1-flush-during-shutdown", "D4-enqueue-after-drain", "D5-export-after-expired-shutdown",
+                    "D6-flush-nil-without-marker", "D7-shutdown-nil-while-expired-drain-runs"}
 Contract == mon.bad \subseteq (IF AllowKnown THEN KnownDeviations ELSE {})
 NoD1 == "D1-flush-during-shutdown" \notin mon.bad
 NoD4 == "D4-enqueue-after-drain" \notin mon.bad
-NoD5 == "D5-drain-outlives-expired-shutdown" \notin mon.bad
+NoD5 == "D5-export-after-expired-shutdown" \notin mon.bad
+NoD7 == "D7-shutdown-nil-while-expired-drain-runs" \notin mon.bad
 NoD6 == "D6-flush-nil-without-marker" \notin mon.bad
 DroppedCounted == dropped = Cardinality(mon.droppedIds)
 MutexOK == (mutex = "none") = (mon.inflight = <<>>)
